@@ -3,12 +3,7 @@ import Secp.Proofs.FieldLimb
 # `FromMontgomery`: generated code = reference (definitional); reference divides by `R` modulo `m`
 -/
 
-theorem fromMont_tie_p (x : L4) : FiatField.fromMontgomery x = refFromMont Mp x := by
-  unfold FiatField.fromMontgomery refFromMont condSub redStep add4c addShift mulRow Mp
-  simp only [cmov_tie_p]
-theorem fromMont_tie_n (x : L4) : FiatScalar.fromMontgomery x = refFromMont Mn x := by
-  unfold FiatScalar.fromMontgomery refFromMont condSub redStep add4c addShift mulRow Mn
-  simp only [cmov_tie_n]
+
 
 theorem add4c_spec (a : L5) (v : Nat) (a0 : a.l0 < W) (a1 : a.l1 < W) (a2 : a.l2 < W) (a3 : a.l3 < W) (a4 : a.l4 ≤ 1)
     (hv : v < W) : eval5 (add4c a v) = eval5 a + v ∧ (add4c a v).ok := by
@@ -96,15 +91,3 @@ theorem refFromMont_correct (M : Modulus) (hM : M.Valid) (hMlt : M.val < W^4) (h
       rw [← total, ← h]; ring
     have h2 : (V * W^4 + W^4 * M.val) % M.val = (V * W^4) % M.val := Nat.add_mul_mod_self_right _ _ _
     rw [← h2, this, Nat.add_mul_mod_self_right]
-
-theorem fieldFromMont_correct (x : L4) (hx : x.ok) :
-    (FiatField.fromMontgomery x).ok ∧ (FiatField.fromMontgomery x).eval < Pnat ∧
-    ((FiatField.fromMontgomery x).eval * W^4) % Pnat = x.eval % Pnat := by
-  rw [fromMont_tie_p, ← Mp_val]
-  exact refFromMont_correct Mp Mp_valid Mp_lt (by decide) x hx
-
-theorem scalarFromMont_correct (x : L4) (hx : x.ok) :
-    (FiatScalar.fromMontgomery x).ok ∧ (FiatScalar.fromMontgomery x).eval < Nnat ∧
-    ((FiatScalar.fromMontgomery x).eval * W^4) % Nnat = x.eval % Nnat := by
-  rw [fromMont_tie_n, ← Mn_val]
-  exact refFromMont_correct Mn Mn_valid Mn_lt (by decide) x hx
